@@ -92,6 +92,94 @@ func findType(name string) protoreflect.MessageType {
 // newPulsar returns a fresh message of the generated Go type.
 func newPulsar(mt protoreflect.MessageType) proto.Message { return mt.New().Interface() }
 
+var retainedMethods = map[protoreflect.FullName]*protoiface.Methods{}
+
+// rekey replaces the keys of every populated map of m (not bool-keyed ones) by other keys,
+// keeping the number of entries and the values.
+func rekey(m protoreflect.Message) {
+	m.Range(func(fd protoreflect.FieldDescriptor, v protoreflect.Value) bool {
+		if !fd.IsMap() || fd.MapKey().Kind() == protoreflect.BoolKind {
+			return true
+		}
+		type kv struct {
+			k protoreflect.MapKey
+			v protoreflect.Value
+		}
+		var es []kv
+		mp := v.Map()
+		mp.Range(func(k protoreflect.MapKey, v protoreflect.Value) bool {
+			es = append(es, kv{k, v})
+			return true
+		})
+		for _, e := range es {
+			mp.Clear(e.k)
+		}
+		for i, e := range es {
+			var nk protoreflect.Value
+			switch fd.MapKey().Kind() {
+			case protoreflect.StringKind:
+				nk = protoreflect.ValueOfString(fmt.Sprintf("%s~%d", e.k.String(), i))
+			case protoreflect.Int32Kind, protoreflect.Sint32Kind, protoreflect.Sfixed32Kind:
+				nk = protoreflect.ValueOfInt32(int32(1000003*(i+1)) ^ int32(e.k.Int()))
+			case protoreflect.Int64Kind, protoreflect.Sint64Kind, protoreflect.Sfixed64Kind:
+				nk = protoreflect.ValueOfInt64(int64(1000003*(i+1)) ^ e.k.Int())
+			case protoreflect.Uint32Kind, protoreflect.Fixed32Kind:
+				nk = protoreflect.ValueOfUint32(uint32(1000003*(i+1)) ^ uint32(e.k.Uint()))
+			default:
+				nk = protoreflect.ValueOfUint64(uint64(1000003*(i+1)) ^ e.k.Uint())
+			}
+			mp.Set(nk.MapKey(), e.v)
+		}
+		return true
+	})
+}
+
+// mixedParent rebuilds the value d as a dynamicpb message whose message-typed children (singular
+// and oneof members, list elements, map values) are GENERATED messages: protobuf-go's reflection
+// encoder then calls the children's fast paths with its own, already non-empty, output buffer.
+func mixedParent(d protoreflect.Message) protoreflect.Message {
+	child := func(m protoreflect.Message) protoreflect.Message {
+		mt, err := protoregistry.GlobalTypes.FindMessageByName(m.Descriptor().FullName())
+		if err != nil {
+			return m
+		}
+		c := mt.New()
+		if !m.IsValid() {
+			return c
+		}
+		b, err := proto.Marshal(m.Interface())
+		if err != nil || proto.Unmarshal(b, c.Interface()) != nil {
+			return m
+		}
+		return c
+	}
+	parent := dynamicpb.NewMessage(d.Descriptor())
+	d.Range(func(fd protoreflect.FieldDescriptor, v protoreflect.Value) bool {
+		switch {
+		case fd.IsMap() && fd.MapValue().Message() != nil:
+			mp := parent.Mutable(fd).Map()
+			v.Map().Range(func(k protoreflect.MapKey, mv protoreflect.Value) bool {
+				mp.Set(k, protoreflect.ValueOfMessage(child(mv.Message())))
+				return true
+			})
+		case fd.IsMap():
+			parent.Set(fd, v)
+		case fd.IsList() && fd.Message() != nil:
+			l := parent.Mutable(fd).List()
+			for i := 0; i < v.List().Len(); i++ {
+				l.Append(protoreflect.ValueOfMessage(child(v.List().Get(i).Message())))
+			}
+		case fd.Message() != nil:
+			parent.Set(fd, protoreflect.ValueOfMessage(child(v.Message())))
+		default:
+			parent.Set(fd, v)
+		}
+		return true
+	})
+	parent.SetUnknown(d.GetUnknown())
+	return parent
+}
+
 func catch(f func()) (p string) {
 	defer func() {
 		if r := recover(); r != nil {
@@ -236,7 +324,21 @@ func (r *codecRunner) run(op Op) {
 			// the fast path called the way protoiface documents it, with ONLY the Deterministic flag
 			if pn := catch(func() {
 				pm := r.p.ProtoReflect()
-				if ms := pm.ProtoMethods(); ms != nil && ms.Marshal != nil {
+				// one Methods value per type is kept for the whole run (the closures take the message
+				// from their input; protobuf-go caches its own per type the same way), and the size
+				// of ANOTHER message of the type -- same shape, other map keys -- is taken through it
+				// right before: what one call computes must not leak into the next
+				ms := retainedMethods[r.md.FullName()]
+				if ms == nil {
+					ms = pm.ProtoMethods()
+					retainedMethods[r.md.FullName()] = ms
+				}
+				if ms != nil && ms.Marshal != nil {
+					if ms.Size != nil {
+						other := proto.Clone(r.p)
+						rekey(other.ProtoReflect())
+						ms.Size(protoiface.SizeInput{Message: other.ProtoReflect(), Flags: protoiface.MarshalDeterministic})
+					}
 					out, derr := ms.Marshal(protoiface.MarshalInput{Message: pm, Flags: protoiface.MarshalDeterministic})
 					if derr != nil {
 						e.Err += "|direct: " + derr.Error()
@@ -250,6 +352,22 @@ func (r *codecRunner) run(op Op) {
 				e.Panic, e.Ok = "direct: "+pn, false
 			}
 		}
+		rb, rerr := o.Marshal(r.d)
+		e.RefOk = rerr == nil
+		e.RefOut = proj.Bytes(rb)
+	case "mixed":
+		// the current value as a dynamicpb parent holding generated children: validated as a
+		// Marshal step (the abstract value is the same)
+		e.evName = "marshal"
+		o := proto.MarshalOptions{Deterministic: true}
+		var b []byte
+		var err error
+		e.Panic = catch(func() { b, err = o.Marshal(mixedParent(r.d.ProtoReflect()).Interface()) })
+		e.Ok = err == nil && e.Panic == ""
+		if err != nil {
+			e.Err = err.Error()
+		}
+		e.Out, e.OutDirect = proj.Bytes(b), proj.Bytes(b)
 		rb, rerr := o.Marshal(r.d)
 		e.RefOk = rerr == nil
 		e.RefOut = proj.Bytes(rb)
@@ -746,6 +864,13 @@ func randomCodecPlan(g *val.Gen, mt protoreflect.MessageType, mode string, emit 
 		}
 		emit(Op{Op: "load", T: t, V: v})
 	}
+	if is("det") {
+		// generated children under a parent of another implementation, also empty ones
+		emit(Op{Op: "mixed", Det: true, Tag: "det-mixed"})
+		emit(Op{Op: "sync", V: emptyNested(v), Tag: "det-mixed"})
+		emit(Op{Op: "mixed", Det: true, Tag: "det-mixed"})
+		emit(Op{Op: "load", T: t, V: v})
+	}
 	// (not in lib mode: proto.Merge INTO a message holding nil map values / list elements panics
 	// "cannot merge into invalid message" in every implementation -- nil is read-only)
 	if g.R.Intn(2) == 0 && (is("rt", "det", "size") || mode == "mem" || mode == "pure") {
@@ -822,6 +947,10 @@ func randomCodecPlan(g *val.Gen, mt protoreflect.MessageType, mode string, emit 
 		emit(Op{Op: "plantempty", Tag: "size-empty"})
 		emit(Op{Op: "size", Det: true, Tag: "size-empty"})
 		emit(Op{Op: "append", Det: true, Prefix: []int{1, 2, 3}, Cap: 64, Tag: "size-empty"})
+		// ... and the empty message itself, onto a non-empty buffer with and without spare room
+		emit(Op{Op: "sync", V: J{"f": J{}, "u": []int{}}, Tag: "size-empty"})
+		emit(Op{Op: "append", Det: true, Prefix: []int{9, 8, 7}, Cap: 0, Tag: "size-empty"})
+		emit(Op{Op: "append", Det: false, Prefix: []int{9, 8, 7, 6}, Cap: 32, Tag: "size-empty"})
 		emit(Op{Op: "load", T: t, V: v})
 	}
 	if is("xform") {
